@@ -183,10 +183,9 @@ class MemTrigger(BaseTrigger):
 
             # If we expect a specific last execution time and it doesn't match,
             # it means someone else updated it
-            if (
-                expected_last_execution is not None
-                and current != expected_last_execution
-            ):
+            # (expected_last_execution=None means "no execution recorded yet": the
+            # first firing is a compare-and-swap like every later one.)
+            if current != expected_last_execution:
                 return False
 
             self._last_cron_executions[condition_id] = execution_time
